@@ -359,6 +359,10 @@ def hilbert_cpu_list(meta, scaling, select, infofile):
     box_size = (meta["boxlen"] * scaling).magnitude
     ncells = 2 ** min(meta["levelmax"], 18)  # limit to 262000 cells
     half_dxmin = 0.5 * box_size / ncells
+    # If the finest cells are smaller than the sampled ones, a cell can satisfy the
+    # selection while the centre of the sampled cell around it does not: the box
+    # must then reach one sampled cell further on both sides.
+    padding = half_dxmin if meta["levelmax"] <= 18 else 3 * half_dxmin
     xyz_centers = Array(
         values=np.linspace(half_dxmin, box_size - half_dxmin, ncells),
         unit=scaling.units,
@@ -370,10 +374,10 @@ def hilbert_cpu_list(meta, scaling, select, infofile):
             new_bbox = True
             func_test = select[key](xyz_centers)
             inds = np.argwhere(func_test.values).ravel()
-            start = xyz_centers[inds.min()] - (half_dxmin * scaling.units)
-            end = xyz_centers[inds.max()] + (half_dxmin * scaling.units)
-            bounding_box["{}min".format(c)] = start._array / box_size
-            bounding_box["{}max".format(c)] = end._array / box_size
+            start = xyz_centers[inds.min()] - (padding * scaling.units)
+            end = xyz_centers[inds.max()] + (padding * scaling.units)
+            bounding_box["{}min".format(c)] = max(start._array / box_size, 0.0)
+            bounding_box["{}max".format(c)] = min(end._array / box_size, 1.0)
 
     if new_bbox:
         return _get_cpu_list(
